@@ -25,7 +25,15 @@ Abstractions (trusted, stated in the evidence):
 * a line is one `linepart` (lines split over blocks give the same calls up to no-op `setc`s);
 * write errors are not modelled (every variant runs to its final flush, so `printed` is the sum
   of the slices written); `flushed` is taken from the printer, not recomputed.
+
+Lines split over blocks and the print buffer (second half of this file): a line of a `SysMsgP` is
+its list of `lineparts`; `hlParts` is the loop of `print_color_line_highlight_dt!` over them; the
+`MOp` layer adds `buffer_flush_or_return!` to the calls and `stepD` interprets the three macros on
+the printer's buffer (capacity generated from the source: `S4V.Gen.Print.BUFFER_CAP`), giving the
+bytes that reach stdout and the increments of the caller's `printed` / `flushed`; the order of
+the returned tuple of every print function is generated (`S4V.Gen.Print.retPrintedFirst`).
 -/
+import S4V.Gen.Print
 namespace S4V.Model.Print
 
 abbrev Bytes := List UInt8
@@ -473,5 +481,324 @@ def stripEscAux : Scan → Bytes → Bytes
   | .i, c :: r => if c = LM then stripEscAux .n r else stripEscAux .i r
 
 def stripEsc (b : Bytes) : Bytes := stripEscAux .n b
+
+/-! ### lines split over blocks (`lineparts`) -/
+
+/-- a text-log message whose lines are given as their `lineparts` (a line that crosses a block
+boundary is split there) -/
+structure SysMsgP where
+  lines : List (List Bytes)
+  dtBeg : Nat
+  dtEnd : Nat
+  deriving DecidableEq, Repr
+
+/-- the same message with every line as one byte string -/
+def SysMsgP.flat (m : SysMsgP) : SysMsg := ⟨m.lines.map List.flatten, m.dtBeg, m.dtEnd⟩
+
+/-- body of `for linepart in (*$linep).lineparts.iter()` of `print_color_line_highlight_dt!`:
+`at_` = `at`, the offset of this part in the line; `b`/`e` = `$dt_beg`/`$dt_end`. Same cases in
+the same order with the same comparisons; `&slice[x..y]` = `(slice.take y).drop x`. -/
+def hlPart (at_ : Nat) (slice : Bytes) (b e : Nat) : List Op :=
+  let at_end := at_ + slice.length
+  -- datetime is entirely within one linepart
+  if at_ ≤ b ∧ e < at_end then
+    wrNE .txt (slice.take (b - at_)) ++ wrNE .dt ((slice.take (e - at_)).drop (b - at_)) ++
+      wrNE .txt (slice.drop (e - at_))
+  -- datetime begins in this linepart, extends into next linepart
+  else if at_ ≤ b ∧ b < at_end ∧ at_end ≤ e then
+    wrNE .txt (slice.take (b - at_)) ++ wrNE .dt (slice.drop (b - at_))
+  -- datetime began in previous linepart, ends within this linepart
+  else if b < at_ ∧ at_ ≤ e ∧ e ≤ at_end then
+    wrNE .dt (slice.take (e - at_)) ++ wrNE .txt (slice.drop (e - at_))
+  -- datetime began in previous linepart, extends into next linepart
+  else if b < at_ ∧ at_end ≤ e then
+    [.setc .dt, .wr slice]
+  -- datetime is not in this linepart
+  else
+    [.setc .txt, .wr slice]
+
+/-- the loop, `at += slice.len()` after every part -/
+def hlPartsAt (b e : Nat) : Nat → List Bytes → List Op
+  | _, [] => []
+  | at_, p :: ps => hlPart at_ p b e ++ hlPartsAt b e (at_ + p.length) ps
+
+/-- `print_color_line_highlight_dt!` (`let mut at = 0`) -/
+def hlParts (parts : List Bytes) (b e : Nat) : List Op := hlPartsAt b e 0 parts
+
+/-- the generated per-part body (`S4V.Gen.Print.hlPartSegs`) as calls -/
+def specOfNat : Nat → Spec
+  | 0 => .dflt
+  | 1 => .txt
+  | _ => .dt
+
+def segOps (s : S4V.Gen.Print.Seg) : List Op :=
+  if s.guarded then wrNE (specOfNat s.spec) s.bytes else [.setc (specOfNat s.spec), .wr s.bytes]
+
+/-! ### the print buffer: `buffer_write_or_return!`, `buffer_flush_or_return!`, `setcolor_or_return!` -/
+
+/-- macro calls of a print function, flushes included -/
+inductive MOp
+  | setc (s : Spec)
+  | wr (b : Bytes)
+  | flush
+  deriving DecidableEq, Repr
+
+/-- forget the flushes -/
+def erase : List MOp → List Op
+  | [] => []
+  | .setc s :: r => .setc s :: erase r
+  | .wr b :: r => .wr b :: erase r
+  | .flush :: r => erase r
+
+/-- `buffer_flush_or_return!` after every `buffer_write_or_return!` (the shape of the colour macros) -/
+def withFlush : List Op → List MOp
+  | [] => []
+  | .setc s :: r => .setc s :: withFlush r
+  | .wr b :: r => .wr b :: .flush :: withFlush r
+
+/-- what the macros act on besides the caller's two counters: `self.buffer`, stdout so far,
+`self.color_spec_last` -/
+structure Dev where
+  buf : Bytes := []
+  out : List Chunk := []
+  last : Last := none
+  deriving DecidableEq, Repr
+
+/-- increments of the caller's `printed` and `flushed` (every update in the macros is a `+=`) -/
+structure Cnt where
+  printed : Nat := 0
+  flushed : Nat := 0
+  deriving DecidableEq, Repr
+
+instance : Add Cnt := ⟨fun a b => ⟨a.printed + b.printed, a.flushed + b.flushed⟩⟩
+
+/-- `BUFFER_USE`, `self.buffer.capacity()`, escape bytes of the printer's three specs -/
+structure Env where
+  use : Bool
+  cap : Nat
+  pal : Pal
+  deriving DecidableEq, Repr
+
+/-- the printer as built by `PrinterLogMessage::new`: constants generated from the source -/
+def Env.code (p : Pal) : Env :=
+  ⟨S4V.Gen.Print.BUFFER_USE, if S4V.Gen.Print.BUFFER_USE then S4V.Gen.Print.BUFFER_CAP else 0, p⟩
+
+/-- `buffer_flush_or_return!`: `if !buffer.is_empty() { write_all(buffer); printed += len; clear; flush; flushed += 1 }` -/
+def flushD (d : Dev) : Dev × Cnt :=
+  if d.buf = [] then (d, ⟨0, 0⟩)
+  else ({ d with out := d.out ++ [.data d.buf], buf := [] }, ⟨d.buf.length, 1⟩)
+
+/-- `buffer_write_or_return!` -/
+def writeD (env : Env) (d : Dev) (s : Bytes) : Dev × Cnt :=
+  if !env.use then
+    -- write_all(slice); printed += slice.len(); flush; flushed += 1
+    ({ d with out := d.out ++ [.data s] }, ⟨s.length, 1⟩)
+  else if s.length ≤ env.cap - d.buf.length then
+    -- remaining capacity in the buffer; only copy the slice
+    ({ d with buf := d.buf ++ s }, ⟨0, 0⟩)
+  else
+    -- buffer is full, write it (whatever it holds, also nothing): printed += buffer.len(); flushed += 1; clear
+    let d1 : Dev := { d with out := d.out ++ [.data d.buf], buf := [] }
+    if s.length > env.cap then
+      -- slice larger than the buffer: write_all(slice); printed += slice.len(); flush; flushed += 1
+      ({ d1 with out := d1.out ++ [.data s] }, ⟨d.buf.length + s.length, 2⟩)
+    else
+      ({ d1 with buf := s }, ⟨d.buf.length, 1⟩)
+
+/-- `setcolor_or_return!`: flush the buffer, then `if spec != last { set_color; flush; flushed += 1; last = spec }` -/
+def setcD (env : Env) (d : Dev) (s : Spec) : Dev × Cnt :=
+  let (d1, c1) := flushD d
+  if d1.last = some (env.pal.esc s) then (d1, c1)
+  else ({ d1 with out := d1.out ++ [.esc (env.pal.esc s)], last := some (env.pal.esc s) }, c1 + ⟨0, 1⟩)
+
+def stepD (env : Env) (d : Dev) : MOp → Dev × Cnt
+  | .setc s => setcD env d s
+  | .wr b => writeD env d b
+  | .flush => flushD d
+
+/-- a run of macro calls in a function whose `printed`/`flushed` start at 0: the device after it
+and the values of the two locals -/
+def runD (env : Env) : Dev → List MOp → Dev × Cnt
+  | d, [] => (d, ⟨0, 0⟩)
+  | d, op :: r =>
+    let (d1, c1) := stepD env d op
+    let (d2, c2) := runD env d1 r
+    (d2, c1 + c2)
+
+/-- the order of the tuple in the function's `PrinterLogMessageResult::Ok((_, _))` -/
+def tup (printedFirst : Bool) (c : Cnt) : Nat × Nat :=
+  if printedFirst then (c.printed, c.flushed) else (c.flushed, c.printed)
+
+/-- what the source says about tuple orders (generated) -/
+structure Flags where
+  ret : S4V.Gen.Print.RetOrder
+  add : S4V.Gen.Print.LineAdd
+  deriving DecidableEq, Repr
+
+def Flags.code : Flags := ⟨S4V.Gen.Print.retPrintedFirst, S4V.Gen.Print.lineAddStraight⟩
+
+/-- `print_line`: its own `printed`/`flushed` from 0, every linepart written, no flush; returns its tuple -/
+def print_line_M (env : Env) (F : Flags) (d : Dev) (parts : List Bytes) : Dev × (Nat × Nat) :=
+  let (d1, c) := runD env d (parts.map .wr)
+  (d1, tup F.ret.print_line c)
+
+/-- `Ok((p, f)) => { printed += p; flushed += f; }` (`straight`), or crossed -/
+def addRes (straight : Bool) (c : Cnt) (r : Nat × Nat) : Cnt :=
+  if straight then ⟨c.printed + r.1, c.flushed + r.2⟩ else ⟨c.printed + r.2, c.flushed + r.1⟩
+
+/-- `for linep in lines { <pre>; match self.print_line(linep) { Ok((p, f)) => … } }` of the four
+no-colour text printers -/
+def ncLoop (env : Env) (F : Flags) (straight : Bool) (pre : List MOp) : Dev → List (List Bytes) → Dev × Cnt
+  | d, [] => (d, ⟨0, 0⟩)
+  | d, l :: ls =>
+    let (d1, c1) := runD env d pre
+    let (d2, r) := print_line_M env F d1 l
+    let (d3, c3) := ncLoop env F straight pre d2 ls
+    (d3, addRes straight c1 r + c3)
+
+def optM : Option Bytes → List MOp
+  | none => []
+  | some b => [.wr b]
+
+/-- `print_sysline_`, `_prependdate`, `_prependfile`, `_prependfile_prependdate`: loop, final
+`buffer_flush_or_return!`, `Ok((…, …))` -/
+def sysNoColorM (env : Env) (F : Flags) (retFirst straight : Bool) (pre : List MOp) (m : SysMsgP) (d : Dev) :
+    Dev × (Nat × Nat) :=
+  let (d1, c1) := ncLoop env F straight pre d m.lines
+  let (d2, c2) := flushD d1
+  (d2, tup retFirst (c1 + c2))
+
+/-- `for linep in lines { <pre>; if line_first { highlight } else { print_color_line! } }` -/
+def colorLoopM (pre : List MOp) (b e : Nat) : Bool → List (List Bytes) → List MOp
+  | _, [] => []
+  | first, l :: ls =>
+    pre ++ (if first then withFlush (hlParts l b e) else l.map .wr ++ [.flush]) ++ colorLoopM pre b e false ls
+
+/-- the calls of the four colour text printers: `print_sysline_color` sets the text colour once
+before the loop; the prefixed ones do `setc default; <fields>; flush; setc text` before every line -/
+def sysColorOpsM (f d : Option Bytes) (m : SysMsgP) : List MOp :=
+  match f, d with
+  | none, none => .setc .txt :: colorLoopM [] m.dtBeg m.dtEnd true m.lines ++ [.setc .dflt]
+  | f, d => colorLoopM ([.setc .dflt] ++ optM f ++ optM d ++ [.flush, .setc .txt]) m.dtBeg m.dtEnd true m.lines ++ [.setc .dflt]
+
+/-- a flat function: run the calls, return the tuple -/
+def flatM (env : Env) (retFirst : Bool) (ops : List MOp) (d : Dev) : Dev × (Nat × Nat) :=
+  let (d1, c) := runD env d ops
+  (d1, tup retFirst c)
+
+/-- `print_sysline`: the device after the call and the returned tuple -/
+def print_sysline_M (env : Env) (F : Flags) (o : Opts) (m : SysMsgP) (d : Dev) : Dev × (Nat × Nat) :=
+  match o.color, o.file, o.date with
+  | false, none, none => sysNoColorM env F F.ret.print_sysline_plain F.add.print_sysline_plain [] m d
+  | false, some f, none => sysNoColorM env F F.ret.print_sysline_prependfile F.add.print_sysline_prependfile [.wr f] m d
+  | false, none, some dt => sysNoColorM env F F.ret.print_sysline_prependdate F.add.print_sysline_prependdate [.wr dt] m d
+  | false, some f, some dt =>
+    sysNoColorM env F F.ret.print_sysline_prependfile_prependdate F.add.print_sysline_prependfile_prependdate [.wr f, .wr dt] m d
+  | true, none, none => flatM env F.ret.print_sysline_color (sysColorOpsM none none m) d
+  | true, some f, none => flatM env F.ret.print_sysline_prependfile_color (sysColorOpsM (some f) none m) d
+  | true, none, some dt => flatM env F.ret.print_sysline_prependdate_color (sysColorOpsM none (some dt) m) d
+  | true, some f, some dt => flatM env F.ret.print_sysline_prependfile_prependdate_color (sysColorOpsM (some f) (some dt) m) d
+
+/-- the calls of `print_sysline` as one flat list (what the no-colour loop amounts to when the
+tuples are passed straight) -/
+def sysOpsM (o : Opts) (m : SysMsgP) : List MOp :=
+  if o.color then sysColorOpsM o.file o.date m
+  else m.lines.flatMap (fun l => optM o.file ++ optM o.date ++ l.map .wr) ++ [.flush]
+
+/-! accounting records, event-log records, journal entries: flat functions -/
+
+/-- `print_fixedstruct*` -/
+def fixedOpsM (o : Opts) (m : BufMsg) : List MOp :=
+  match o.color, o.file, o.date with
+  | false, f, d => optM f ++ optM d ++ [.wr m.data, .flush]
+  | true, none, none => withFlush (hlBuf m.data m.beg m.fin) ++ [.setc .dflt]
+  | true, f, d => [.setc .dflt] ++ optM f ++ optM d ++ [.flush] ++ withFlush (hlBuf m.data m.beg m.fin) ++ [.setc .dflt]
+
+def prependColorLoopM (pre : List MOp) (b e : Nat) : Nat → List Bytes → List MOp
+  | _, [] => []
+  | at_, l :: ls => pre ++ withFlush (hlAt l at_ b e) ++ prependColorLoopM pre b e (at_ + l.length) ls
+
+/-- `print_evtx*` -/
+def evtxOpsM (o : Opts) (m : BufMsg) : List MOp :=
+  match o.color, o.file, o.date with
+  | false, none, none => [.wr m.data, .flush]
+  | false, f, d => (nlLines m.data).flatMap (fun l => optM f ++ optM d ++ [.wr l]) ++ [.flush]
+  | true, none, none => withFlush (hlBuf m.data m.beg m.fin) ++ [.setc .dflt]
+  | true, f, d =>
+    prependColorLoopM ([.setc .dflt] ++ optM f ++ optM d ++ [.flush]) m.beg m.fin 0 (nlLines m.data) ++ [.setc .dflt]
+
+/-- the journal prefix `match (do_prependfile, do_prependdate)`, then `buffer_flush_or_return!` -/
+def journalPreM : Option Bytes → Option Bytes → List MOp
+  | some f, some d => [.setc .dflt, .wr f, .wr d, .flush]
+  | some f, none => [.setc .dflt, .wr f, .flush]
+  | none, some d => [.setc .dflt, .wr d, .flush]
+  | none, none => [.flush]
+
+/-- `print_journalentry*` -/
+def journalOpsM (o : Opts) (m : BufMsg) : List MOp :=
+  match o.color, o.file, o.date with
+  | false, none, none => [.wr m.data, .flush]
+  | false, f, d => (nlLines m.data).flatMap (fun l => optM f ++ optM d ++ [.wr l]) ++ [.flush]
+  | true, none, none => withFlush (hlBuf m.data m.beg m.fin) ++ [.setc .dflt]
+  | true, f, d => prependColorLoopM (journalPreM f d) m.beg m.fin 0 (nlLines m.data) ++ [.setc .dflt]
+
+/-- which `Ok((_, _))` a call ends in -/
+def retFlag (R : S4V.Gen.Print.RetOrder) (k : Kind) (o : Opts) : Bool :=
+  match k, o.color, o.file, o.date with
+  | .sysline, false, none, none => R.print_sysline_plain
+  | .sysline, false, some _, none => R.print_sysline_prependfile
+  | .sysline, false, none, some _ => R.print_sysline_prependdate
+  | .sysline, false, some _, some _ => R.print_sysline_prependfile_prependdate
+  | .sysline, true, none, none => R.print_sysline_color
+  | .sysline, true, some _, none => R.print_sysline_prependfile_color
+  | .sysline, true, none, some _ => R.print_sysline_prependdate_color
+  | .sysline, true, some _, some _ => R.print_sysline_prependfile_prependdate_color
+  | .fixedstruct, false, none, none => R.print_fixedstruct_plain
+  | .fixedstruct, false, some _, none => R.print_fixedstruct_prependfile
+  | .fixedstruct, false, none, some _ => R.print_fixedstruct_prependdate
+  | .fixedstruct, false, some _, some _ => R.print_fixedstruct_prependfile_prependdate
+  | .fixedstruct, true, none, none => R.print_fixedstruct_color
+  | .fixedstruct, true, some _, none => R.print_fixedstruct_prependfile_color
+  | .fixedstruct, true, none, some _ => R.print_fixedstruct_prependdate_color
+  | .fixedstruct, true, some _, some _ => R.print_fixedstruct_prependfile_prependdate_color
+  | .evtx, false, none, none => R.print_evtx_plain
+  | .evtx, false, _, _ => R.print_evtx_prepend
+  | .evtx, true, none, none => R.print_evtx_color
+  | .evtx, true, _, _ => R.print_evtx_prepend_color
+  | .journal, false, none, none => R.print_journalentry_plain
+  | .journal, false, _, _ => R.print_journalentry_prepend
+  | .journal, true, none, none => R.print_journalentry_color
+  | .journal, true, _, _ => R.print_journalentry_prepend_color
+
+/-- a message with its text-log lines given as lineparts -/
+inductive MsgP
+  | sysline (m : SysMsgP)
+  | fixedstruct (m : BufMsg)
+  | evtx (m : BufMsg)
+  | journal (m : BufMsg)
+  deriving DecidableEq, Repr
+
+def MsgP.flat : MsgP → Msg
+  | .sysline m => .sysline m.flat
+  | .fixedstruct m => .fixedstruct m
+  | .evtx m => .evtx m
+  | .journal m => .journal m
+
+/-- all macro calls of one print call, flat -/
+def opsM (o : Opts) : MsgP → List MOp
+  | .sysline m => sysOpsM o m
+  | .fixedstruct m => fixedOpsM o m
+  | .evtx m => evtxOpsM o m
+  | .journal m => journalOpsM o m
+
+/-- one call of `print_sysline` / `print_fixedstruct` / `print_evtx` / `print_journalentry`:
+the device afterwards and the tuple the coordinator receives as `(printed, flushed)` -/
+def printM (env : Env) (F : Flags) (o : Opts) (m : MsgP) (d : Dev) : Dev × (Nat × Nat) :=
+  match m with
+  | .sysline s => print_sysline_M env F o s d
+  | m => flatM env (retFlag F.ret m.flat.kind o) (opsM o m) d
+
+/-- a printer between calls: empty buffer, nothing written yet -/
+def Dev.fresh (last : Last) : Dev := { buf := [], out := [], last := last }
 
 end S4V.Model.Print
